@@ -156,9 +156,10 @@ def discharge(obs: list[Obligation], tier: str = "quick", jobs: int | None = Non
                 if w.task is None and queue:
                     i = queue.pop()
                     w.task = i
-                    w.deadline = time.time() + zb + 3
+                    zbi = min(zb, 3) if obs[i].kind == "canary" else zb  # canaries: short budget, then bounded mode
+                    w.deadline = time.time() + zbi + 3
                     w.t0 = time.time()
-                    w.parent.send((texts[i], zb))
+                    w.parent.send((texts[i], zbi))
                     active += 1
             time.sleep(0.005)
             for w in workers:
@@ -185,7 +186,8 @@ def discharge(obs: list[Obligation], tier: str = "quick", jobs: int | None = Non
                     verdicts[i] = Verdict(obs[i], res, "z3-" + z3.get_version_string(), secs, detail, [("z3", res, secs)])
                 else:
                     verdicts[i] = Verdict(obs[i], "unknown", "z3", secs, detail, [("z3", res + ":" + detail, secs)])
-                    cvc5_queue.append(i)
+                    if obs[i].kind != "canary":
+                        cvc5_queue.append(i)
     finally:
         for w in workers:
             try:
